@@ -371,6 +371,10 @@ def currently_exiting_context(frame: types.FrameType) -> Optional[ExitingContext
                 offs -= 2
     else:  # 3.11 and later
         # Async calls have lasti pointing at YIELD_VALUE or SEND
+        if code[offs] == op["CACHE"] and offs >= 2 and code[offs - 2] == op["SEND"]:
+            # On 3.12+, while the awaited __aexit__ is running (not suspended),
+            # lasti rests on the inline CACHE entry that follows SEND
+            offs -= 2
         if code[offs] == op["YIELD_VALUE"] and offs >= 2:
             offs -= 2
             # SEND can have a CACHE after it in 3.12
